@@ -9,12 +9,16 @@ def q(name, entry, k, tier='quick', timeout=1500):
                  bounded=(f'data tokens of 0..{k} bytes (the consensus element limit is 520)' if entry in ('h_enc_data', 'h_enc_minimal') else None))
 PREFIX = Query('enc_prefix', 'harness', UE.unit_enc, 'h_enc_prefix', defines=['VERIF_ITEM_CAP=70000', 'VERIF_SCRIPT_CAP=70008', 'H_ENC_LENGTH_ONLY'], unwind=12, timeout=900, object_bits=10, functions=FN,
                bounded='data of 9..70,000 bytes: push prefix and total length exact, payload bytes by length only')
-QUERIES = [PREFIX, q('enc_data', 'h_enc_data', 80), q('enc_minimal', 'h_enc_minimal', 80), q('enc_int', 'h_enc_int', 16), q('enc_opcode', 'h_enc_opcode', 16),
+from props import units_main as UM
+CLASSIFY = Query('value_classify', 'harness', UM.unit_value_ctor, 'h_valuector', defines=['VERIF_ITEM_CAP=16', 'VERIF_SCRIPT_CAP=26', 'VERIF_TOKEN_CAP=5'], unwind=30, timeout=2400, object_bits=10,
+                 functions=['value.h: Value::Value(const char*, size_t, bool) (plain tokens)', 'util/strencodings.cpp: TryHex, HexDigit, p_util_hexdigit'],
+                 bounded='one plain token of at most 5 characters (no whitespace, brackets or parentheses); atoll / snprintf are assumed libc models (stubs/libc_num.h); GetOpCode is an oracle; bracketed sub-scripts, inline functions and 0b literals are outside')
+QUERIES = [CLASSIFY, PREFIX, q('enc_data', 'h_enc_data', 80), q('enc_minimal', 'h_enc_minimal', 80), q('enc_int', 'h_enc_int', 16), q('enc_opcode', 'h_enc_opcode', 16),
            q('enc_data', 'h_enc_data', 130, 'thorough', 6000), q('enc_minimal', 'h_enc_minimal', 130, 'thorough', 6000)]
 META = {'level': 'proof', 'trusted_base': TRUSTED + ['stubs/enc_env.h: CScript as byte vector with end()-insert, WriteLE16/32 on a little-endian target'],
  'assumptions': ASSUME_COMMON + [
    "claimed: the encoding half - an already classified token (opcode / integer / data) is appended as the exact minimal encoding, for all int64 and all opcode bytes; data tokens up to the stated length",
-   "not applicable: token classification (Value(const char*), parse_args, GetOpCode): atoll / snprintf / strndup / VLAs / a 150-way strcmp chain are libc string semantics outside the verifier's reach; bracketed sub-scripts reduce to a data token holding the compiled body (that reduction is inside the constructor, not covered)",
+   "token classification Value(const char*): decided for plain tokens of at most 5 characters with assumed libc models (value_classify); beyond that not applicable: (parse_args, GetOpCode: atoll / snprintf / strndup / VLAs / a 150-way strcmp chain are libc string semantics outside the verifier's reach; bracketed sub-scripts reduce to a data token holding the compiled body (that reduction is inside the constructor, not covered)",
  ],
  'explanation': 'contracts on the real Value::operator>> and CScript push encoders against the minimal-push grammar; lemma: decode(assembled push) = bytes and the interpreter\'s real CheckMinimalPush accepts it'}
 MANIFEST = {
